@@ -11,6 +11,7 @@ import Depccg.GlueRun
 import Depccg.Read.Deriv
 import Depccg.Read.Prolog
 import Depccg.Read.Conll
+import Depccg.Read.ConllDoc
 import Depccg.Read.Json
 import Depccg.Read.XmlText
 
@@ -140,6 +141,14 @@ def dispatch (op : String) (ts : List String) : Option String :=
         | some rows => "ok " ++ toString rows.length ++ String.join (rows.map fun r =>
             " || " ++ toString r.id ++ " " ++ encStr r.word ++ " " ++ encStr r.lemma ++ " " ++ encStr r.pos ++ " " ++ encStr r.pos2
               ++ " " ++ toString r.head ++ " " ++ encStr r.cat)
+        | none => "none")
+      | _ => "bad-op")
+  | "conll_doc" => some (match pStr ts with
+      | some (s, []) => (match Read.decConllDoc s with
+        | some recs => "ok " ++ toString recs.length ++ String.join (recs.map fun (n, sc, rows) =>
+            " ## " ++ toString n ++ " " ++ encStr sc ++ " " ++ toString rows.length ++ String.join (rows.map fun r =>
+              " || " ++ toString r.id ++ " " ++ encStr r.word ++ " " ++ encStr r.lemma ++ " " ++ encStr r.pos ++ " " ++ encStr r.pos2
+                ++ " " ++ toString r.head ++ " " ++ encStr r.cat))
         | none => "none")
       | _ => "bad-op")
   | "prolog_dec" => some (match pStr ts with
